@@ -82,6 +82,35 @@ def build_plan(edges_path, plan_path, rng, max_len=60):
     return len(parent), reach, sum(covered), n_sc, n_steps
 
 
+def apalache_inductive(ctx):
+    """The C11 core is an INDUCTIVE invariant of the sequence-based model from ANY state satisfying it (ids 1..5,
+    <= 5 entries), checked symbolically by Apalache; a mutated SetPrimary (keeps the old primary) must be refuted."""
+    import shutil, subprocess, re
+    src = os.path.join(os.path.dirname(os.path.dirname(os.path.abspath(__file__))), "spec", "proofs", "KeysetManagerApa.tla")
+    d = os.path.join(ctx.scratch, "apa")
+    os.makedirs(d, exist_ok=True)
+    shutil.copy(src, d)
+    mut = open(src).read().replace("MODULE KeysetManagerApa", "MODULE KeysetManagerApaMut").replace(
+        "!.primary = (entries[i].id = id)", "!.primary = (entries[i].primary \\/ entries[i].id = id)")
+    open(os.path.join(d, "KeysetManagerApaMut.tla"), "w").write(mut)
+
+    def run(mod, init, length):
+        try:
+            r = subprocess.run(["apalache-mc", "check", "--init=" + init, "--inv=IndInv", "--length=%d" % length, mod + ".tla"],
+                               cwd=d, capture_output=True, text=True, timeout=900)
+        except subprocess.TimeoutExpired:
+            ctx.infra("apalache timeout on " + mod)
+        m = re.search(r"The outcome is: (\w+)", r.stdout + r.stderr)
+        return m.group(1) if m else "Unknown:" + (r.stdout + r.stderr)[-400:]
+    o1, o2, o3 = run("KeysetManagerApa", "Init", 0), run("KeysetManagerApa", "IndInit", 1), run("KeysetManagerApaMut", "IndInit", 1)
+    if o1 != "NoError" or o2 != "NoError":
+        ctx.infra("Apalache: IndInv is not inductive on the model (%s / %s)" % (o1, o2))
+    if o3 == "NoError":
+        ctx.infra("Apalache: the mutated model was not refuted (inductiveness check is vacuous)")
+    ctx.stage("P:Apalache inductive invariant (ids 1..5, <=5 entries, from any state)", init=o1, step=o2, mutated_model=o3)
+    ctx.log("Apalache: IndInv inductive (init %s, step %s; mutated SetPrimary: %s)" % (o1, o2, o3))
+
+
 def corrupt(ev, rng):
     if ev["ev"] == "reset":
         return None
@@ -141,6 +170,8 @@ def run(ctx):
             ctx.infra("TLAPS proof of KeysetManagerAbs failed: " + (r.stdout + r.stderr)[-1500:])
         ctx.stage("P:TLAPS KeysetManagerAbs (arbitrary ID, unbounded)", obligations=int(m.group(1)), discharged=int(m.group(1)))
         ctx.log("TLAPS: all %s obligations proved" % m.group(1))
+    if not ctx.replay:
+        apalache_inductive(ctx)
     drv = ctx.go_build("c11")
     if ctx.replay:
         obj = json.load(open(ctx.replay))
